@@ -290,6 +290,13 @@ Definition spec_text (v : node_value) : option bytes :=
   | _ => None
   end.
 
+(* the table a header cell belongs to: parent is a header row, grandparent a table *)
+Definition header_table (par gp : option node_value) : option node_table :=
+  match par, gp with
+  | Some (TableRow true), Some (Table t) => Some t
+  | _, _ => None
+  end.
+
 (* attributes by kind (par / gp / ix: the parent's value, the grandparent's value, the index among
    the siblings — a header cell carries the alignment of its column) *)
 Definition spec_attrs (v : node_value) (par gp : option node_value) (ix : nat) : list (bytes * bytes) :=
@@ -309,13 +316,13 @@ Definition spec_attrs (v : node_value) (par gp : option node_value) (ix : nat) :
     end ++ [preserve_attr]
   | Link url title | Image url title => [(B "destination", url); (B "title", title)]
   | TableCell =>
-    match par, gp with
-    | Some (TableRow true), Some (Table t) =>
+    match header_table par gp with
+    | Some t =>
       match nth_error (t_aligns t) ix with
       | Some a => match spec_align a with Some n => [(B "align", n)] | None => [] end
       | None => []
       end
-    | _, _ => []
+    | None => []
     end
   | FootnoteDefinition name _ => [(B "label", name)]
   | FootnoteReference name _ _ => [(B "label", name)]
@@ -359,8 +366,11 @@ Definition tree_to_xtree (o : opts) (t : node) : xtree := tree_to_xtree_at o Non
    a column alignment (index < number of alignments).  This is exactly what format_node needs. *)
 Definition cell_ok (par gp : option node_value) (ix : nat) : bool :=
   match par, gp with
-  | Some (TableRow true), Some (Table t) => Nat.ltb ix (List.length (t_aligns t))
-  | Some _, Some _ => true
+  | Some _, Some _ =>
+    match header_table par gp with
+    | Some t => Nat.ltb ix (List.length (t_aligns t))
+    | None => true
+    end
   | _, _ => false
   end.
 
